@@ -292,4 +292,49 @@ def finalizeSeries (name : String) (s : Rat) (l : List (Int × Nat)) : List (Int
   l.map (fun e => (e.1, finalizeVal (seriesTruncates name) s e.2))
 
 
+/-! ### The form of a death request, and how module-held arrays reach the registry (round 5) -/
+
+/-- `People.request_death(key)` for ANY key `Arr.__setitem__` accepts (one python / numpy integer, an identifier array, a
+    Boolean state, a slice …): `self.ti_dead[key] = self.sim.ti`, dispatched as `Arr._convert_key` does under variant `v`
+    (`codeVariant` = what the regenerated `_convert_key` table says about integers) -/
+def requestDeathKey (v : Variant) (p : People) (k : Key) : Except Err People := do
+  let td ← setItem v p.auids p.tiDead k (.scalar (tiVal p.ti))
+  pure { p with tiDead := td }
+
+/-- a Boolean test on the outcome of an operation that may raise (`false` when it raises) -/
+def okAnd (r : Except Err People) (f : People → Bool) : Bool :=
+  match r with
+  | .ok p => f p
+  | .error _ => false
+
+/-- the arrays a module holds as attributes, in attribute order: (state name, array); names may repeat -/
+abbrev Held := List (String × Arr)
+
+/-- a mapping keyed by the state name keeps one array per name (the last one) -/
+def lastByName : Held → Held
+  | [] => []
+  | h :: rest => if rest.any (fun r => r.1 == h.1) then lastByName rest else h :: lastByName rest
+
+/-- `Module.states`: the enumeration mode is regenerated (`Gen.moduleStatesEnum`) -/
+def enumStates (mode : String) (held : Held) : Held := if mode = "all-attributes" then held else lastByName held
+
+/-- `link_people` + `init_vals` for a list of arrays, one after the other (first error wins) -/
+def registerAll (p : People) : List Arr → Except Err People
+  | [] => .ok p
+  | a :: rest =>
+      match registerState p a with
+      | .error e => .error e
+      | .ok p' => registerAll p' rest
+
+/-- `l'` are, pairwise and in order, the allocations (`init_vals` = grow by the active agents) of the arrays `l` -/
+def Allocated (au : List Nat) : List Arr → List Arr → Prop
+  | [], [] => True
+  | a :: l, a' :: l' => grow a au none = .ok a' ∧ Allocated au l l'
+  | _, _ => False
+
+/-- `People.add_module(m)` + `m.init_post()`: every ENUMERATED array of the module is linked, registered and allocated -/
+def addModule (mode : String) (p : People) (held : Held) : Except Err People :=
+  registerAll p ((enumStates mode held).map (fun h => h.2))
+
+
 end StarsimModel.People
